@@ -16,3 +16,9 @@ PBT_PROPERTY(btree_scale) { verif::bt::run_scale_property(src); }
 // key reference into the container, c = c, c.swap(c) -- interleaved with the complete operation set of btree_model; same oracle.
 // Configurations: C01_btree_cfga_*.cpp (thorough adds C01_btree_cfgat_*.cpp), see run_alias_property in C01_btree_history.cpp.
 PBT_PROPERTY(btree_alias) { verif::bt::run_alias_property(src, true); }
+
+// API-audit classes: public members / overloads / iterator types / value categories that no other target calls (operator[], writes
+// through iterators, iterator-flavour conversions, std iterator algorithms, key_comp / value_comp / max_size / get_allocator /
+// get_stats, ranges through input iterators / pointers / list / deque iterators / convertible element types, empty ranges,
+// (cmp, alloc) constructor forms, rvalue copy arguments, generic std::swap), see run_api_property in C01_btree_history.cpp.
+PBT_PROPERTY(btree_api) { verif::bt::run_api_property(src, true); }
